@@ -49,3 +49,10 @@ func (b *Badger) VerifWipe() error {
 		return nil
 	})
 }
+
+// VerifRawPut stores raw bytes under a key (used to plant an unreadable record).
+func (b *Badger) VerifRawPut(key string, value []byte) error {
+	return b.db.Update(func(txn *badger.Txn) error {
+		return txn.Set([]byte(key), value)
+	})
+}
